@@ -155,15 +155,45 @@ fn setters(d: &reg::IDesc, ctx: &Ctx, r: &mut Report) {
 					}
 				}
 			}
-			// through the dyn interface
-			if rng.chance(0.2) {
+			// through the dyn interface: same outcome (Ok/Err), same validity, same shape, same init outcome as the static call;
+			// every fifth case continues with a second set on the same pair of configurations (an invalid intermediate state
+			// must not make the two interfaces diverge)
+			{
 				let mut dc = base.as_dyn();
-				let _ = guard(|| dc.set(name, text.clone()));
 				let mut c2 = base.bclone();
-				let _ = guard(|| c2.set(name, text.clone()));
-				if dc.validate() != c2.validate() || dc.size() != c2.size() {
-					r.violate(&format!("C11|{}|dyn-config|set-differs", d.name), "dyn set behaves differently from the static one", case);
+				let mut steps: Vec<(String, String)> = vec![(name.clone(), text.clone())];
+				if rng.chance(0.2) {
+					let names: Vec<&String> = obj.keys().collect();
+					let n2 = (*rng.pick(&names)).clone();
+					let k2 = field_kind(&obj[&n2]);
+					if let Some((t2, _)) = fresh_values(&k2, &obj[&n2], &mut rng, 1).into_iter().next() {
+						steps.push((n2, t2));
+					}
 				}
+				for (si, (n, t)) in steps.iter().enumerate() {
+					let rd = guard(|| dc.set(n, t.clone()).is_ok());
+					let rs = guard(|| c2.set(n, t.clone()).is_ok());
+					let agree = match (&rd, &rs) {
+						(Ok(a), Ok(b)) => a == b && dc.validate() == c2.validate() && dc.size() == c2.size() && dc.name() == c2.name(),
+						(Err(_), Err(_)) => true,
+						_ => false,
+					};
+					let init_agree = agree && {
+						let c0 = &gen::candles(0, 7, 2, 2)[0];
+						let a = guard(|| dc.init(c0).is_ok());
+						let b = guard(|| c2.init(c0).is_ok());
+						match (a, b) {
+							(Ok(x), Ok(y)) => x == y,
+							(Err(_), Err(_)) => true, // both panic: C10's matter
+							_ => false,
+						}
+					};
+					if !agree || !init_agree {
+						r.violate(&format!("C11|{}|dyn-config|set-differs", d.name), "set through IndicatorConfigDyn behaves differently from the static set (outcome, validity, shape or init)", || json!({"case": case(), "steps": steps, "failing_step": si, "dyn_ok": rd.as_ref().ok(), "static_ok": rs.as_ref().ok()}));
+						break;
+					}
+				}
+				r.cell("set:dyn-agrees-with-static");
 			}
 		}
 		r.cell(&format!("set:{}:{name}", d.name));
